@@ -6,6 +6,9 @@ lean/TlxVerif/Model/C01*.lean); here the harness runs its invariant / allocation
 (`run c02`), the generator profile contains more copies, assignments, swaps, clears and range
 constructions, and the theorems are the ones of lean/TlxVerif/Props/C02.lean.
 """
+import glob
+import os
+
 from vlib import core, flow
 from checks.c01 import BTreeSpec, harness_spec
 
@@ -15,16 +18,11 @@ class C02(BTreeSpec):
     profile = "c02"
     harness_args = ("run", "c02")
     harness = harness_spec([])
-    extra_lean_sources = ("TlxVerif/Model/C01Tree.lean", "TlxVerif/Model/C01Erase.lean", "TlxVerif/Model/C01Step.lean",
-                          "TlxVerif/Proofs/C01Basic.lean", "TlxVerif/Proofs/C01Inv.lean", "TlxVerif/Proofs/C01Count.lean",
-                          "TlxVerif/Proofs/C01Flatten.lean", "TlxVerif/Proofs/C01Absorb.lean", "TlxVerif/Proofs/C01Order.lean",
-                          "TlxVerif/Proofs/C01Sep.lean", "TlxVerif/Proofs/C01TreeInv.lean", "TlxVerif/Proofs/C01Main.lean",
-                          "TlxVerif/Proofs/C01Query.lean", "TlxVerif/Proofs/C01Copy.lean", "TlxVerif/Proofs/C01EraseA.lean",
-                          "TlxVerif/Proofs/C01EraseB.lean", "TlxVerif/Proofs/C01EraseC.lean", "TlxVerif/Proofs/C01EraseD.lean",
-                          "TlxVerif/Proofs/C01EraseE.lean", "TlxVerif/Proofs/C01EraseF.lean", "TlxVerif/Proofs/C01EraseG.lean",
-                          "TlxVerif/Proofs/C01SepSeq.lean", "TlxVerif/Proofs/C01EraseH.lean", "TlxVerif/Proofs/C01Iter.lean",
-                          "TlxVerif/Proofs/C01InsPos.lean", "TlxVerif/Proofs/C01StdOrder.lean", "TlxVerif/Proofs/C01Bulk.lean",
-                          "TlxVerif/Proofs/C01Verify.lean", "TlxVerif/Model/C01Verify.lean", "TlxVerif/Proofs/C01RIter.lean")
+    # the model and every helper proof are shared with C01: scan all of them
+    extra_lean_sources = tuple(sorted(
+        os.path.relpath(f, core.LEAN)
+        for sub in ("Model", "Gen", "Proofs")
+        for f in glob.glob(os.path.join(core.LEAN, "TlxVerif", sub, "C01*.lean"))))
     assumptions = [
         "node identity is not modelled: the model counts allocations and frees per node type; that the *right* node "
         "is freed is observed by the counting allocator (unknown/double free), ASan and the leaf-chain walk only",
